@@ -51,6 +51,7 @@ type worker[T any, JobType iJob[T]] struct {
 	tickers         []*time.Ticker
 	tickerStops     []chan struct{}
 	mx              sync.RWMutex
+	lifecycleMx     sync.Mutex // serializes Stop and Restart
 	ctx             context.Context
 	cancel          context.CancelFunc
 	Configs         configs
@@ -679,6 +680,11 @@ func (w *worker[T, JobType]) Pause() error {
 }
 
 func (w *worker[T, JobType]) Stop() error {
+	// Stop and Restart tear down and rebuild the same channels, goroutines and status:
+	// they must not interleave (e.g. the context listener's Stop with a Restart)
+	w.lifecycleMx.Lock()
+	defer w.lifecycleMx.Unlock()
+
 	switch s := w.status.Load(); s {
 	case stopped:
 		return nil
@@ -716,6 +722,9 @@ func (w *worker[T, JobType]) NumPending() int {
 }
 
 func (w *worker[T, JobType]) Restart() error {
+	w.lifecycleMx.Lock()
+	defer w.lifecycleMx.Unlock()
+
 	// If worker is running, pause and wait for ongoing processes
 	switch w.status.Load() {
 	case running:
